@@ -13,7 +13,7 @@ core.use_repo()
 RULE = ("Hypothesis-generated training lists (short alphabets so that characters fall outside, n-gram 2-5, five encodings) through "
         "the real trainer; candidates = all training passwords, strings the real Markov generator emits, and mutations (an "
         "out-of-alphabet character at each position, truncations/extensions to lengths n-1, n, n+1, 21, 22, the empty string, "
-        "generated strings). Oracle (3-way differential): find_omen_level(trainer) == OmenScorer.parse == guesser level, where the "
+        "generated strings). Oracle (3-way differential): find_omen_level(trainer) == OmenScorer.parse == the fourth field PCFGPasswordScorer.parse reports (whatever category it files the string under; e-mail and web-site strings are added to the lists) == guesser level, where the "
         "guesser level is (a) the independent level formula over the tables loaded by the real load_rules and (b) for levels whose "
         "reference size is <= 20000, membership in the real MarkovCracker's output at exactly that level and at no other "
         "enumerated level; omen_pws_per_level.txt must equal the tally of the trainer's levels over the list. Non-trivial = a "
@@ -69,6 +69,15 @@ def prop(case, rec):
     g = guard(case, guesser.load, out)
     with core.quiet():
         sc = guard(case, OmenScorer, out, enc, 9)
+        # the scorer as password_scorer.py builds it: the level is the fourth field of what it reports for a string,
+        # whatever category (password, other, e-mail, web site) it files the string under
+        from lib_scorer.pcfg_password_scorer import PCFGPasswordScorer
+        from lib_scorer.grammar_io import load_grammar as s_load_grammar
+        full = PCFGPasswordScorer(limit=0)
+        if not guard(case, s_load_grammar, full, out):
+            raise Violation('scorer_load_failed', 'the scorer could not load a ruleset the trainer just wrote', case)
+        full.create_multiword_detector()
+        guard(case, full.create_omen_scorer, out, 9)
     gm = guesser_model(g.omen_grammar)
     n = T.ngram
     alpha = list(r.program_info['alphabet'])
@@ -106,7 +115,11 @@ def prop(case, rec):
         lt = guard(case, find_omen_level, T, s)
         ls = guard(case, sc.parse, s)
         lg = omen_ref.level_of(gm, s)
-        cls = []
+        with core.quiet():
+            rep = guard(case, full.parse, s)
+        cls = ['scorer_category_' + str(rep[1])]
+        if rep[3] != ls:
+            raise Violation('scorer_report', f'string {s!r}: password scorer reports {rep!r}: OMEN level {rep[3]}, its OMEN tables say {ls} (trainer {lt})', dict(case, extra=[s]))
         if len(s) in (n - 1, n, n + 1, 21, 22, 0):
             cls.append('boundary_length')
         if outside and outside in s:
@@ -153,6 +166,10 @@ def cases(draw):
         entries.append([p, draw(st.sampled_from([1, 1, 2, 3, 5]))])
     if not entries:
         entries = [['abc', 2], ['abca', 1]]
+    # strings the scorer files under "e-mail" / "web site": their level must be reported like any other string's
+    for v in draw(st.lists(st.sampled_from(pwgen.EMAILISH[:5] + pwgen.WEBISH[:6] + ['c@ab.com', 'abc.com', 'www.abc.com']), max_size=3, unique=True)):
+        if v not in seen:
+            entries.append([v, draw(st.sampled_from([1, 2, 4]))])
     return {'entries': entries, 'encoding': enc, 'ngram': draw(st.sampled_from([2, 2, 3, 4, 5])),
             'alphabet_size': draw(st.sampled_from([100, 10, 5, 3])), 'spelling': draw(st.sampled_from(trainer.SPELLINGS))}
 
